@@ -207,6 +207,20 @@ Theorem ref_store_snapshot : forall n h X k z bind j c0, flat_array h X ->
 Proof. exact ref_store_snapshot. Qed.
 Print Assumptions ref_store_snapshot.
 
+(* Depth >= 2, characterised exactly.  CloneArrayValue copies one level, so a copy and its original hold the same
+   inner array objects.  For EVERY array a (nested or not) and every write on a third array object X - an inner
+   array in particular: afterwards the copy and the original still denote equal trees.  With write_frame this is
+   the whole story of a nested write: it is seen through both names or through neither (when neither reaches X),
+   never through one only; only writes on the two top-level array objects themselves can tell the names apart
+   (copy_then_mutate).  The property demands independence at every depth, so the nested clause stays refuted. *)
+Theorem clone_then_third_party_write : forall n h a X m,
+  a < next h -> noref h X -> bounded h X -> X <> a -> X < next h ->
+  let h1 := fst (clone_array h a) in
+  let b := snd (clone_array h a) in
+  obs n (apply_mut h1 X m) (VArr b) = obs n (apply_mut h1 X m) (VArr a).
+Proof. exact clone_then_third_party_write_l. Qed.
+Print Assumptions clone_then_third_party_write.
+
 (* Nested shapes (depth >= 2): the full statement
      forall shape route m, observe_other (mutate m (copy route h)) = observe_other (copy route h)
    is FALSE of the code: inner arrays are shared pointers mutated in place (no copy-on-write);
